@@ -95,6 +95,33 @@ def run_scenario(scn):
     LIVE.clear()
     cs = sr.Case(spec)
     db = os.path.join(d, "s.db")
+
+    def on_reduce(tick, init, state, commands):
+        if type(tick).__name__ != "TickIdleRelease":
+            return
+        tr = cs.tr
+        runner = tr.runners[-1] if tr.runners else None
+        snap = {"t": vclock.vnow(), "run_id": runner.adapter.run_id if runner else None, "reason": "idle_release", "via": "TickIdleRelease"}
+        if runner is not None:
+            try:
+                q = runner.adapter
+                while hasattr(q, "_decorated"):
+                    q = q._decorated
+                recvq = [type(t).__name__ for t in list(q._queues.receive_queue._queue)]
+            except Exception:  # noqa: BLE001
+                recvq = ["?"]
+            snap.update({
+                "workers": {n: {"q": len(w.queue), "ip": len(w.in_progress)} for n, w in init.workers.items()},
+                "wakeups": [type(t[2]).__name__ for t in runner.scheduled_wakeups],
+                "buffer": [type(t).__name__ for t in runner.tick_buffer],
+                "recvq": recvq,
+                "pulled": [n for (n, rid) in tr.extra.get("pulled", {}).values() if rid == snap["run_id"]],
+                "live": LIVE.get(snap["run_id"], 0),
+            })
+        obs["releases"].append(snap)
+
+    if scn.get("stack") == "dbos_sub":
+        cs.tr.extra["on_reduce"] = on_reduce
     cuts = sorted(scn.get("restarts") or [])
     bounds = [0.0] + cuts + [scn.get("end", 400.0)]
     mem_store = {"obj": None}
@@ -110,7 +137,7 @@ def run_scenario(scn):
                 else:
                     store = mem_store["obj"] or sr.fault_store("memory", None, yield_rnd=yr, log=[], latency=scn.get("store_latency"))
                     mem_store["obj"] = store
-                proc = sr.Proc(spec, store, idle_timeout=scn["idle_timeout"])
+                proc = sr.Proc(spec, store, idle_timeout=scn["idle_timeout"], stack=scn.get("stack", "inproc"), lifecycle_db=os.path.join(d, "lifecycle.db"))
                 starter = asyncio.ensure_future(proc.start())
                 senders = []
 
@@ -138,6 +165,9 @@ def run_scenario(scn):
                 await asyncio.sleep(max(0, t1 - vclock.vnow()))
                 h = sr.handler_view(await proc.handler("h1"))
                 obs["phases"].append({"phase": pi, "t_end": vclock.vnow(), "h": h, "live": LIVE.get(h["run_id"], 0) if h else None})
+                if scn.get("stack") == "dbos_sub":
+                    obs["lifecycle"] = sr.lifecycle_rows(os.path.join(d, "lifecycle.db"))
+                    obs["sub_calls"] = list(proc.dbos_runtime.vf_sub.calls)
                 if not last:
                     store.vf_crashed = True  # the process dies here: nothing more is persisted
                     obs["stopping"] = False
@@ -178,11 +208,14 @@ def gen_program(rnd, *, n=None, waiter_timeout=None, retry_delay=None):
     return {"family": "idle", "steps": steps, "timeout": None, "externals": [], "meta": {"n": n, "keys": keys, "waiter_timeout": waiter_timeout, "retry_delay": retry_delay}}, keys
 
 
-def idle_instant(spec, store_latency=None):
+def idle_instant(spec, store_latency=None, stack="inproc"):
     """virtual instant at which the run first becomes idle with every wait registered (reference run, no sends, no release);
     measured with the same store latency as the scenario it is a reference for"""
-    obs, cs = run_scenario({"spec": spec, "idle_timeout": 1e6, "sends": [], "end": 60.0, "store": "memory", "store_latency": store_latency})
+    obs, cs = run_scenario({"spec": spec, "idle_timeout": 1e6, "sends": [], "end": 60.0, "store": "memory", "store_latency": store_latency, "stack": stack})
     idles = [p["t"] for p in cs.tr.pubs if p["etype"] == "WorkflowIdleEvent"]
+    if stack == "dbos_sub":
+        # the event interceptor keeps published events away from the inner runtime: read the idle instants off the reducer
+        idles = [t["t"] for t in cs.tr.ticks if t["tick"] == "TickIdleCheck" and any(p.get("type") == "WorkflowIdleEvent" for p in t.get("pubs", []))]
     n_wait = spec["meta"]["n"]
     regs = [r["t"] for r in cs.tr.rec.of("wait_call")]
     if not idles or len(regs) < n_wait:
